@@ -219,6 +219,92 @@ PROPS["C14"] = {
                  "differential correspondence with the real TaffyTree, reference-spec monitor",
 }
 
+PROPS["C03"] = {
+    # obligations are merged from the per-area modules as they are integrated (grid placement, flex freeze loop,
+    # fr / distribution loops, index-checked accessors)
+    "modules": ["TaffyVerif.Props.C14", "TaffyVerif.Props.C03Grid"],
+    "theorems": ["C14.index_error_unchanged", "C14.index_error_iff", "C14.no_panic",
+                 "C03Grid.search_secondary_terminates", "C03Grid.search_fixed_primary_terminates",
+                 "C03Grid.search_both_terminates", "C03Grid.fuel_suffices",
+                 "C03Grid.estimate_covers_definite", "C03Grid.mark_area_never_panics", "C03Grid.matrix_wellformed_invariant"],
+    "harness": "C03", "driver": "C03", "monitor": False, "also_debug": True, "debug_cases": 1500,
+    "rule": "supervised worker processes (ulimit -v 4 GB, 10 s per-case timeout) lay out generated trees from the property's "
+            "bounded domain (all displays, signed margins/insets, grid lines −6…6 incl. 0, spans 0…4, repeat()/auto-fill/auto-fit "
+            "tracks, min/max-content and definite available space, rounding on and off) in a release and in a debug build "
+            "(overflow checks); exit status, panic payload, hangs, peak RSS and non-finite outputs are observed; plus every "
+            "index-checked accessor/mutator with out-of-range indices. Non-trivial = tree with ≥ 3 nodes; distinct = distinct transcripts.",
+    "trusted_base": [
+        "totality is a list of obligations about modelled loops and partial operations (see theorem list); code paths that are "
+        "not modelled are sampled by the supervised worker only — that part is a search, not a proof",
+    ],
+    "assumptions": ["'moderately sized' = |line| ≤ 6, span ≤ 4, lengths ≤ 400, ≤ 16 nodes in the sampled domain"],
+    "undischarged": ["totality of the unmodelled parts of flexbox.rs and grid track sizing (sampled only)",
+                     "grid placement_total (no panic / no overflow under an explicit bound on |line|, span, #children) is stated in "
+                     "Props/C03Grid.lean but not proved as a whole: proved are termination of the three search loops for all inputs, "
+                     "that the size estimate covers every definite placement, and that mark_area_as/expand_to_fit_range cannot panic on "
+                     "a well-formed matrix for areas not starting before the implicit grid; missing is threading these through the "
+                     "phases and the quantitative no-overflow invariant (sampled: C08's harness, overflow checks on, 0 panics)"],
+    "level_text": "Proved: index-checked tree accessors/mutators return Err and never panic for every index and leave the state "
+                  "unchanged (C14 model); further obligations (grid placement totality, flex freeze-loop and fr-loop termination) are "
+                  "added as their models are integrated. Observed, not proved: no panic, hang, blow-up or non-finite output of the "
+                  "real code on the sampled bounded domain in release and debug builds.",
+    "level_note": "partial: totality of unmodelled code is sampled by a supervised worker process. Known finding: "
+                  "remove_children_range panics on an out-of-range range (documented behaviour).",
+    "technique": "Lean 4 termination/no-panic theorems for the modelled loops and accessors + supervised out-of-process sampling",
+}
+
+_C08_RULE = (
+    "placement problems = (explicit column/row counts 0..3, one of the four grid-auto-flow modes, 0..6 children, each with "
+    "grid-row/grid-column start/end drawn from auto | line -6..6 (0 included) | span 0..4, tokens shared between children so "
+    "that items collide, a third of the children forced fully automatic or definite in exactly one axis); a second stream "
+    "with up to 12 children, lines up to +-40, spans up to 9, up to 6 explicit tracks; 60 fixed cases first (the four "
+    "witnesses of the repaired defects 2-5 under every flow, swapped/equal lines, sparse vs dense cursor, childless grids). "
+    "Every problem is run twice: through the cfg(taffy_verif) hook verif_place_grid_items (areas in origin-zero lines, record "
+    "order, final track counts) and as a whole TaffyTree layout observed through detailed_layout_info (1-based areas, sorted); "
+    "both answers are compared with the Lean model, and the hook is cross-checked against the layout inside the harness. "
+    "thorough adds every single child over a 12-token pool x 3 grids x 4 flows, every pair over a 4-token pool x 2 grids x 4 "
+    "flows and every triple over a 3-token pool. Non-trivial = at least two children; distinct = distinct transcripts. "
+    "The taffy crate is compiled with overflow checks on, so an integer overflow is a panic as in a debug build."
+)
+_C08_TRUST = [
+    "Model/GridPlacement.lean is hand-written from placement.rs, implicit_grid.rs, cell_occupancy.rs, coordinates.rs, "
+    "grid_track_counts.rs, style/grid.rs and the grid crate's Grid (row-major vector, bounds-checked get/get_mut, from_vec, "
+    "iter_row/iter_col); tied to the code by exact comparison of item areas and final track counts on generated problems",
+    "the hook verif_place_grid_items replicates the argument construction of compute_grid_layout (estimate -> "
+    "CellOccupancyMatrix::with_track_counts -> place_grid_items); it is cross-checked against detailed_layout_info of a "
+    "real layout on every case that has children",
+    "machine integers: every i16/u16/usize operation of the Rust is a checked operation of the model (overflow outcome); "
+    "lossy `as` casts are also treated as overflow (stricter than Rust, which wraps silently), so an `ok` run performed none",
+]
+
+PROPS["C08"] = {
+    "modules": ["TaffyVerif.Props.C08"],
+    "theorems": [
+        "C08.area_nonempty_in_range", "C08.explicit_lines_honoured", "C08.start_line_exact", "C08.end_line_exact",
+        "C08.both_lines_boundaries", "C08.auto_flag_spec", "C08.auto_items_disjoint",
+    ],
+    "harness": "C08", "driver": "C08", "monitor": True,
+    "rule": _C08_RULE,
+    "trusted_base": _C08_TRUST,
+    "assumptions": [
+        "theorems are partial-correctness statements about a run that returns; that it returns is C03's grid obligation",
+        "absolutely positioned and display:none children are not in-flow and are outside this property (the estimate still "
+        "sees absolutely positioned children: known finding 10, C06)",
+    ],
+    "level_text": "For every grid (any explicit track counts, all four auto-flow modes) and every list of children with any "
+                  "line/span/auto placements (negative lines, line 0, span 0 included), if placement returns then: every item "
+                  "spans >= 1 track per axis inside the final track counts; in a definite axis its two boundaries are exactly the "
+                  "ones resolve_definite_grid_lines derives from the given lines/span (a lone non-zero start/end line is exactly "
+                  "that boundary; two lines are the two boundaries, swapped if reversed), in an indefinite axis it spans the "
+                  "requested number of tracks; and an auto-placed item shares no cell with any other item. Proved by an invariant "
+                  "over place_grid_items (every cell covered by a recorded item is marked in the occupancy matrix, also across "
+                  "expand_to_fit_range; auto items are recorded only on areas found unoccupied). No bound on the number of "
+                  "children. The model is tied to the code by exact comparison through two channels.",
+    "level_note": "Trusted: Lean kernel; hand-written model (validated by the correspondence run through the hook and through "
+                  "detailed_layout_info); the hook. Axioms: propext, Classical.choice, Quot.sound.",
+    "technique": "Lean 4 invariant proof over the occupancy-matrix model + differential correspondence with place_grid_items",
+}
+
 HOOK_COMMITS = [
     "5207efe",
     "79decb2",
@@ -226,5 +312,5 @@ HOOK_COMMITS = [
 
 _pending = "check not built yet in this revision of /verif (planned, see DESIGN.md §8)"
 NOT_APPLICABLE = {p: _pending for p in
-                  ["C01", "C03", "C04", "C05", "C06", "C07", "C08", "C09", "C10", "C11", "C12", "C16", "C17", "C19"]}
+                  ["C01", "C04", "C05", "C06", "C07", "C09", "C10", "C11", "C12", "C16", "C17", "C19"]}
 
